@@ -286,11 +286,11 @@ type Decision struct {
 type Invocation struct {
 	Idx       int
 	Decisions []Decision
-	Draws     string // rendered top-level draws ("" if it never got that far)
+	Draws     string   // rendered top-level draws ("" if it never got that far)
 	DrawLog   []string // "label: %#v" for every top-level draw, as rapid logs them
-	Signalled []Beh  // falsifying behaviours performed in this invocation (ground truth)
-	Skipped   bool   // a skipping behaviour was performed at top level
-	Returned  bool   // the property function returned normally
+	Signalled []Beh    // falsifying behaviours performed in this invocation (ground truth)
+	Skipped   bool     // a skipping behaviour was performed at top level
+	Returned  bool     // the property function returned normally
 	Words     []uint64
 }
 
@@ -316,16 +316,16 @@ type KV struct {
 
 // Env is the demonic environment for one Check run.
 type Env struct {
-	Assign map[string]Beh
-	Base   func(ctx, key string) Beh
-	Seen   []KV // keys in order of first appearance, with the behaviour they got
-	seenIx map[string]int
-	Invs   []*Invocation
-	cur    *Invocation
-	Bufs   [][]uint64 // every buffer handed to newBufBitStream during the run (r5)
-	BufInv []int      // number of invocations started before that buffer was created
-	BufPersist []bool // recording on (the shrinker's second, adopting run) or off
-	Seeds  []SeedEvent // every (re)seeding of a PRNG stream during the run (r1)
+	Assign     map[string]Beh
+	Base       func(ctx, key string) Beh
+	Seen       []KV // keys in order of first appearance, with the behaviour they got
+	seenIx     map[string]int
+	Invs       []*Invocation
+	cur        *Invocation
+	Bufs       [][]uint64  // every buffer handed to newBufBitStream during the run (r5)
+	BufInv     []int       // number of invocations started before that buffer was created
+	BufPersist []bool      // recording on (the shrinker's second, adopting run) or off
+	Seeds      []SeedEvent // every (re)seeding of a PRNG stream during the run (r1)
 }
 
 // SeedEvent: a PRNG stream was seeded when InvIdx invocations had been started.
